@@ -115,7 +115,7 @@ Definition intruders : list peer := [Plaintext; TLSNoCert; TLSCert 7; TLSCert 8;
 
 (* ---- glue for the family "mtls": input (path peer_code announced) ; obs (answered)
    peer codes: 0 plaintext, 1 TLS no cert, 2 fresh cert, 3 other key same name, 4 a certificate issued by an authority of
-   the machine's trust store, 9 the legitimate peer, 10 the HOST's attempt against an impostor server on that path *)
+   the machine's trust store, 5 the holder of a certificate found in the host's own environment, 9 the legitimate peer, 10 the HOST's attempt against an impostor server on that path *)
 Definition path_of_Z (z : Z) : path :=
   match z with 0 => MainNetRPC | 1 => MainGRPC | 2 => PluginBrokered | _ => HostBrokered end%Z.
 Definition check_mtls (P : tparams) (inp obs : V) : verdict :=
@@ -126,7 +126,7 @@ Definition check_mtls (P : tparams) (inp obs : V) : verdict :=
           let pth := path_of_Z p in
           let announced := if ann then Some plugin_key else None in
           let legit_key := match pth with HostBrokered => plugin_key | _ => host_key end in
-          let pr := (if Z.eqb x 0 then Plaintext else if Z.eqb x 1 then TLSNoCert else if Z.eqb x 2 then TLSCert 7 else if Z.eqb x 3 then TLSCert 8 else if Z.eqb x 4 then TLSCert system_key else TLSCert legit_key) in
+          let pr := (if Z.eqb x 0 then Plaintext else if Z.eqb x 1 then TLSNoCert else if Z.eqb x 2 then TLSCert 7 else if Z.eqb x 3 then TLSCert 8 else if Z.eqb x 4 then TLSCert system_key else if Z.eqb x 5 then TLSCert 9 else TLSCert legit_key) in
           let m := if Z.eqb x 10 then client_accepts (client_cfg P announced pth) (Some impostor_server) else
                    if Z.eqb x 9
                    then server_accepts (server_cfg P announced pth) pr && client_accepts (client_cfg P announced pth) (server_cfg P announced pth)
